@@ -13,15 +13,21 @@ META = dict(
                 'validate == flag of validate_and_filter, valid input unchanged, validation implies well-formedness in the encoding; stability proved in '
                 'full: validate(filter x) = true and filter idempotent (premises on the rule set proved for every API-built rule set; premises on the abstract '
                 'encoding validators / conversions stated); URI validators (uri_parser modelled): accepted values are URI characters only and a value with a '
-                'browser-visible scheme is accepted only if the scheme expression matches it, relative validator accepts no scheme; the statement that the '
-                'absolute-only validator requires a scheme is REFUTED on the model of the code as it is (finding absolute-uri-attribute-without-scheme, '
-                'replayed on the implementation) and proved for the repaired parse_full(). The model is tied to src/xss.cpp by running the extracted model '
+                'browser-visible scheme is accepted only if the scheme expression matches it, the relative validator accepts no scheme, the absolute-only '
+                'validator accepts exactly the values scheme ":" hier-part [?query] [#fragment] whose scheme the scheme expression matches '
+                '(absolute_uri_requires_scheme, absolute_uri_validator_exact, also stated through the rule set for an attribute registered with such a '
+                'validator), the relative validator exactly the values without visible scheme that relative-ref consumes, the third validator the union; '
+                'the visible scheme is unchanged by decoding the character references permitted inside a value (uri_scheme_survives_entity_decoding); '
+                'integer attributes are -?digit+, boolean attributes name="name" (xhtml) / valueless (html). '
+                'The model is tied to src/xss.cpp by running the extracted model '
                 'and the real validate / validate_and_filter_if_invalid / filter (rule sets built through the public API and the JSON constructor) on the '
                 'same cases, with PCRE, the encoding validators and iconv answered by the real code; character classes, escape table, code point test, '
-                'entity spellings, uri_parser leafs and the c_string comparator are regenerated from the source by cxx2v on every run and proved equal to '
-                'the model leafs (Link.v).'),
+                'entity spellings, the integer test, uri_parser leafs, the scheme character test, the alternatives of pchar / query / segment / reg_name / '
+                'userinfo, the entry points parse / parse_full and the control skeleton of the composite URI rules, and the c_string comparator are '
+                'regenerated from the source (cxx2v / clang AST) on every run and proved equal to the model leafs (Link.v).'),
     level_note=('Trusted: Coq kernel + vm_compute; cxx2v and clang AST; ExtrOcamlBasic extraction; hand model of the loops of src/xss.cpp '
-                'incl. class uri_parser (tied by correspondence only); PCRE is an abstract function; encoding validators and iconv '
+                'incl. the composite rules of class uri_parser (behaviour tied by correspondence; their control skeleton by a literal comparison in Link.v); '
+                'PCRE is an abstract function; encoding validators and iconv '
                 'conversions are abstract (C14).'),
 )
 
@@ -39,6 +45,61 @@ GEN = {
 }
 
 DEFAULT_SCHEMES = '(http|https|ftp|mailto|news|nntp)'
+
+
+def zcodes(t):
+    return '[%s]' % '; '.join(str(ord(ch)) for ch in t)
+
+
+def grammar_strip(n):
+    while isinstance(n, dict) and n.get('kind') in ('ParenExpr', 'ImplicitCastExpr', 'ExprWithCleanups') and n.get('inner'):
+        n = n['inner'][0]
+    return n
+
+
+def grammar_atom(n):
+    """one operand of an alternative / conjunction of uri_parser, as text: name() / name(<char code>) / name(s<codes>) / a==b / a!=b / true"""
+    import cxx2v, json
+    n = grammar_strip(n)
+    k = n.get('kind')
+    if k == 'CXXMemberCallExpr':
+        callee = grammar_strip(n['inner'][0])
+        if callee.get('kind') != 'MemberExpr' or grammar_strip(callee['inner'][0]).get('kind') != 'CXXThisExpr':
+            raise cxx2v.Unsupported('grammar: call that is not this->method()')
+        args = []
+        for a in n['inner'][1:]:
+            a = grammar_strip(a)
+            if a.get('kind') == 'CharacterLiteral':
+                args.append(str(a['value']))
+            elif a.get('kind') == 'StringLiteral':
+                args.append('s' + '.'.join(str(ord(ch)) for ch in json.loads(a['value'])))
+            else:
+                raise cxx2v.Unsupported('grammar: argument of kind %s' % a.get('kind'))
+        return '%s(%s)' % (callee['name'], ','.join(args))
+    if k == 'BinaryOperator' and n.get('opcode') in ('==', '!='):
+        l, r = grammar_strip(n['inner'][0]), grammar_strip(n['inner'][1])
+        if l.get('kind') == 'MemberExpr' and r.get('kind') == 'MemberExpr':
+            return '%s%s%s' % (l['name'], n['opcode'], r['name'])
+    if k == 'CXXBoolLiteralExpr':
+        return 'true' if n.get('value') else 'false'
+    if k == 'UnaryOperator' and n.get('opcode') == '!':
+        return '!' + grammar_atom(n['inner'][0])
+    raise cxx2v.Unsupported('grammar: operand of kind %s' % k)
+
+
+def grammar_operands(n):
+    """operator followed by the operands of a || or && chain (a single operand: operator '-')"""
+    n = grammar_strip(n)
+    if n.get('kind') == 'BinaryOperator' and n.get('opcode') in ('||', '&&'):
+        op = n['opcode']
+
+        def flat(x):
+            x = grammar_strip(x)
+            if x.get('kind') == 'BinaryOperator' and x.get('opcode') == op:
+                return flat(x['inner'][0]) + flat(x['inner'][1])
+            return [grammar_atom(x)]
+        return [op] + flat(n)
+    return ['-', grammar_atom(n)]
 
 
 def gen_extra():
@@ -61,7 +122,7 @@ def gen_extra():
 
     try:
         lines = ['(* GENERATED by checks/C04.py (cxx2v primitives) from %s -- do not edit *)' % src,
-                 'From Coq Require Import ZArith List Bool.', 'From CppcmsV Require Import Base.CSem gen.Gen_uri.',
+                 'From Coq Require Import ZArith List Bool String.', 'From CppcmsV Require Import Base.CSem gen.Gen_uri.',
                  'Local Open Scope Z_scope.', 'Import ListNotations.', '']
         # (1) escaping loop
         fd = func('validate_and_filter_if_invalid')
@@ -143,12 +204,18 @@ def gen_extra():
         lines.append('Definition g_xss_value_entities : list (list Z) :=\n  [%s].\n' % '; '.join(
             '[%s]' % '; '.join(str(ord(ch)) for ch in l) for l in lits))
         # (4) uri_parser::sub_delims: the case labels and the two entity spellings; (5) uri_parser::unreserved: its test
+        uri_ast = {}
+
         def method(name):
-            objs = cxx2v.run_clang(src, name, vlib.repo_incs(), 'c++11')
-            fds = cxx2v.find_decl(objs, 'CXXMethodDecl', name, hasbody)
-            if len(fds) != 1:
-                raise cxx2v.Unsupported('method %s: %d definitions' % (name, len(fds)))
-            return fds[0]
+            # one AST dump of class uri_parser serves all its methods (the dump lists a method inside the class and on its own)
+            if 'objs' not in uri_ast:
+                uri_ast['objs'] = cxx2v.run_clang(src, 'uri_parser', vlib.repo_incs(), 'c++11')
+            byid = {}
+            for fd in cxx2v.find_decl(uri_ast['objs'], 'CXXMethodDecl', name, hasbody):
+                byid[fd['id']] = fd
+            if len(byid) != 1:
+                raise cxx2v.Unsupported('method uri_parser::%s: %d definitions' % (name, len(byid)))
+            return list(byid.values())[0]
         fd = method('sub_delims')
         labels, words = [], []
 
@@ -193,6 +260,134 @@ def gen_extra():
         tr2.consts = {}
         tr2.ids[cid] = 'c'
         lines.append('Definition g_uri_unreserved (c : Z) : bool :=\n  %s.\n' % tr2.expr(uifs[0]['inner'][0]))
+        # (6) uri_parser::scheme: the character test of its loop, begin_ != end_ && (is_alapha((c = *begin_)) || ... ), with the
+        #     assignment expression replaced by the variable it assigns
+        fd = method('scheme')
+        vds = cxx2v.find_decl([fd], 'VarDecl', 'c')
+        whiles = []
+
+        def walk5(n):
+            if not isinstance(n, dict):
+                return
+            if n.get('kind') == 'WhileStmt':
+                whiles.append(n)
+            for c in n.get('inner', []) or []:
+                walk5(c)
+        walk5(fd)
+        if len(vds) != 1 or len(whiles) != 1:
+            raise cxx2v.Unsupported('uri_parser::scheme: expected one local c and one loop')
+        scid = vds[0]['id']
+        cond = whiles[0]['inner'][0]
+        if not (cond.get('kind') == 'BinaryOperator' and cond.get('opcode') == '&&'
+                and grammar_atom(cond['inner'][0]) == 'begin_!=end_'):
+            raise cxx2v.Unsupported('uri_parser::scheme: loop condition is not begin_ != end_ && (...)')
+
+        def unassign(n):
+            """replace (c = *begin_) by c"""
+            if not isinstance(n, dict):
+                return n
+            if n.get('kind') == 'ParenExpr':
+                b = n['inner'][0]
+                if (b.get('kind') == 'BinaryOperator' and b.get('opcode') == '=' and b['inner'][0].get('kind') == 'DeclRefExpr'
+                        and b['inner'][0]['referencedDecl']['id'] == scid and 'begin_' in json.dumps(b['inner'][1])):
+                    return b['inner'][0]
+            m = dict(n)
+            if 'inner' in n:
+                m['inner'] = [unassign(c) for c in n['inner']]
+            return m
+        test = unassign(cond['inner'][1])
+        if '"opcode": "="' in json.dumps(test):
+            raise cxx2v.Unsupported('uri_parser::scheme: unexpected assignment in the character test')
+        tr3 = cxx2v.Tr('', {'is_alapha': 'g_uri_isalpha', 'is_digit': 'g_uri_isdigit'}, {})
+        tr3.consts = {}
+        tr3.ids[scid] = 'c'
+        lines.append('Definition g_uri_schemech (c : Z) : bool :=\n  %s.\n' % tr3.expr(test))
+        # (7) the grammar of uri_parser as far as it is written as alternatives / conjunctions of calls: for each listed method the
+        #     operands of its return expression (return a() || b() ...; return a() && x == y;) or of the condition of its only loop
+        gram = []
+        for name, where in (('pchar', 'return'), ('query', 'while'), ('segment', 'while'), ('segment_nz_nc', 'while'), ('reg_name', 'while'),
+                            ('userinfo', 'while'), ('host', 'return'), ('fragment', 'return'), ('parse', 'return'),
+                            ('parse_relative', 'return'), ('parse_full', 'return')):
+            fd = method(name)
+            found = []
+
+            def walk6(n, kind):
+                if not isinstance(n, dict):
+                    return
+                if n.get('kind') == kind:
+                    found.append(n)
+                for c in n.get('inner', []) or []:
+                    walk6(c, kind)
+            walk6(fd, 'ReturnStmt' if where == 'return' else 'WhileStmt')
+            if len(found) != 1:
+                raise cxx2v.Unsupported('uri_parser::%s: expected exactly one %s' % (name, where))
+            gram.append((name, grammar_operands(found[0]['inner'][0])))
+        for n, al in gram:
+            for t in [n] + al:
+                if not re.fullmatch(r'[A-Za-z0-9_()|&=!,.\-]+', t):
+                    raise cxx2v.Unsupported('grammar: unexpected text %r' % t)
+        lines.append('Definition g_uri_grammar : list (string * list string) :=\n  [%s].\n' % ';\n   '.join(
+            '("%s"%%string, [%s])' % (n, '; '.join('"%s"%%string' % a for a in al)) for n, al in gram))
+        # (7b) control skeleton of the composite rules of uri_parser: the conditions of all if / while statements and the operands
+        #      of all return statements of each listed method, in source order ("if" / "while" / "return" followed by the operands)
+        ctrl = []
+        for name in ('uri', 'relative_ref', 'relative_part', 'hier_part', 'authority', 'path_absolute', 'path_rootless',
+                     'path_noscheme', 'path_abempty', 'segment_nz'):
+            fd = method(name)
+            items = []
+
+            def walk8(n):
+                if not isinstance(n, dict):
+                    return
+                k = n.get('kind')
+                if k == 'IfStmt':
+                    items.append(['if'] + grammar_operands(n['inner'][0]))
+                elif k == 'WhileStmt':
+                    items.append(['while'] + grammar_operands(n['inner'][0]))
+                elif k == 'ReturnStmt':
+                    items.append(['return'] + grammar_operands(n['inner'][0]))
+                for c in (n.get('inner', []) or [])[(1 if k in ('IfStmt', 'WhileStmt') else 0):]:
+                    walk8(c)
+            walk8(fd)
+            ctrl.append((name, items))
+        for n, items in ctrl:
+            for t in [n] + [x for it in items for x in it]:
+                if not re.fullmatch(r'[A-Za-z0-9_()|&=!,.\-]+', t):
+                    raise cxx2v.Unsupported('grammar: unexpected text %r' % t)
+        lines.append('Definition g_uri_control : list (string * list (list string)) :=\n  [%s].\n' % ';\n   '.join(
+            '("%s"%%string, [%s])' % (n, '; '.join('[%s]' % '; '.join('"%s"%%string' % x for x in it) for it in items)) for n, items in ctrl))
+        # (8) integer_property_functor: the test that rejects a character inside its loop
+        fd = func('integer_property_functor')
+        vds = cxx2v.find_decl([fd], 'VarDecl', 'c')
+        if len(vds) != 1:
+            raise cxx2v.Unsupported('integer_property_functor: local c not found')
+        icid = vds[0]['id']
+
+        def mentions_ic(n):
+            if not isinstance(n, dict):
+                return False
+            if n.get('kind') == 'DeclRefExpr' and n['referencedDecl']['id'] == icid:
+                return True
+            return any(mentions_ic(c) for c in n.get('inner', []) or [])
+        iifs = []
+
+        def walk7(n):
+            if not isinstance(n, dict):
+                return
+            if n.get('kind') == 'IfStmt' and mentions_ic(n['inner'][0]):
+                iifs.append(n)
+            for c in n.get('inner', []) or []:
+                walk7(c)
+        walk7(fd)
+        if len(iifs) != 1:
+            raise cxx2v.Unsupported('integer_property_functor: expected one test of c')
+        then_txt = json.dumps(iifs[0]['inner'][1])
+        if 'ReturnStmt' not in then_txt or 'CXXBoolLiteralExpr' not in then_txt or '"value": false' not in then_txt:
+            raise cxx2v.Unsupported('integer_property_functor: the guarded branch no longer returns false')
+        tr4 = cxx2v.Tr('', {}, {})
+        tr4.consts = {}
+        tr4.ids[icid] = 'c'
+        lines.append('Definition g_xss_int_reject (c : Z) : bool :=\n  %s.\n' % tr4.expr(iifs[0]['inner'][0]))
         with vlib.Lock('gen-Gen_xss2'):
             vlib.write_if_changed(out, '\n'.join(lines) + '\n')
         return []
@@ -239,12 +434,15 @@ def parse_rules(fields):
         for t in fields['tags'].split(';'):
             p = t.split(':')
             name = norm(bytes.fromhex(p[0]))
-            attrs = {}
+            # registrations under names that compare equal: a later add_tag overwrites the kind (kind 0 = no add_tag),
+            # the attributes go into one map per tag, a later registration of an attribute overwrites the earlier one
+            kind, attrs = tags.get(name, (0, {}))
+            attrs = dict(attrs)
             if len(p) > 2:
                 for a in p[2].split(','):
                     an, vk = a.split('~')
                     attrs[norm(bytes.fromhex(an))] = vk
-            tags[name] = (int(p[1]), attrs)
+            tags[name] = (int(p[1]) or kind, attrs)
     return dict(xhtml=xhtml, norm=norm, ents=ents, funs=funs, tags=tags, comments=fields['c'] == '1',
                 numeric=fields['n'] == '1', enc=fields.get('enc', '-'))
 
@@ -290,6 +488,15 @@ def fixed_rulesets():
         # without the tag that has properties only: these two can also be loaded from JSON
         RuleSet('x', 1, 1, '-', ['nbsp', 'a'], FUNS, [t for t in full if t[1] != 0]),
         RuleSet('h', 1, 1, '-', ['nbsp', 'a'], FUNS, [t for t in fullh if t[1] != 0]),
+        # [10], [11]: the same tag / attribute registered more than once (std::map semantics: the last add_tag decides the kind,
+        # attributes accumulate, the last registration of an attribute decides its validator); the tag q (properties only)
+        # keeps these rule sets away from the JSON constructor, which rejects or reorders duplicates
+        RuleSet('x', 1, 1, '-', ['nbsp'], FUNS, [('a', 1, [('href', 'f1'), ('id', 'f4')]), ('a', 3, [('href', 'f3'), ('title', 'f0')]),
+                                                  ('b', 0, [('x', 'i')]), ('b', 2, [('x', 'b'), ('y', 'i')]), ('i', 2, []), ('i', 0, [('class', 'f7')]),
+                                                  ('p', 3, [('a', 'b'), ('a', 'i')]), ('q', 0, [('y', 'i')])]),
+        RuleSet('h', 1, 1, '-', ['nbsp'], FUNS, [('a', 1, [('href', 'f1'), ('ID', 'f4')]), ('A', 3, [('HREF', 'f3'), ('Title', 'f0'), ('id', 'i')]),
+                                                  ('B', 2, [('x', 'i')]), ('b', 0, [('X', 'b')]), ('i', 2, []), ('I', 1, [('class', 'f7')]),
+                                                  ('p', 3, [('a', 'i'), ('A', 'b')]), ('q', 0, [('y', 'i')])]),
     ]
 
 
@@ -304,17 +511,18 @@ def model_covers(case):
 
 
 def probe_parse_full():
-    """which parse_full() does /repo have: 0 = uri_reference() && begin_ == end_ (accepts relative references, finding
-    absolute-uri-attribute-without-scheme), 1 = uri() && begin_ == end_ (docs/C04_fix_1.diff); None = neither (tie broken)"""
+    """shape of uri_parser::parse_full() in /repo: 'uri' = uri() && begin_ == end_ (the code the model describes),
+    'uri_reference' = uri_reference() && begin_ == end_ (the defect repaired by /repo 92a72e6: the absolute-only validator
+    accepted relative references that start with a scheme word; the model does not describe it), None = anything else"""
     src = open(os.path.join(vlib.REPO, 'src/xss.cpp')).read()
     m = re.search(r'bool\s+parse_full\s*\(\s*\)\s*\{(.*?)\}', src, re.S)
     if not m:
         return None
-    body = re.sub(r'\s+', '', m.group(1))
-    if body == 'is_relative_=false;returnuri_reference()&&begin_==end_;':
-        return 0
+    body = re.sub(r'\s+', '', re.sub(r'//[^\n]*|/\*.*?\*/', '', m.group(1), flags=re.S))
     if body == 'is_relative_=false;returnuri()&&begin_==end_;':
-        return 1
+        return 'uri'
+    if body == 'is_relative_=false;returnuri_reference()&&begin_==end_;':
+        return 'uri_reference'
     return None
 
 
@@ -334,6 +542,14 @@ def random_ruleset(rng):
         if kind == 0 and not attrs:
             continue
         tags.append((t if rng.random() < 0.8 else t.upper(), kind, attrs))
+    if tags and rng.random() < 0.3:
+        # a second registration of a tag (html: possibly in another case) with another kind / other validators
+        t, kind, attrs = rng.choice(tags)
+        t2 = t.swapcase() if (m == 'h' and rng.random() < 0.5) else t
+        attrs2 = [((a.swapcase() if m == 'h' and rng.random() < 0.5 else a), rng.choice(['b', 'i', 'f0', 'f4'])) for a, _ in attrs[:2]]
+        attrs2 += [(rng.choice(ATTRPOOL), rng.choice(['b', 'i', 'f1']))]
+        tags.insert(rng.randrange(len(tags) + 1), (t2, rng.choice([0, 1, 2, 3]), attrs2))
+        tags.append(('zz0', 0, [('q', 'i')]))      # keeps the rule set away from the JSON constructor
     ents = rng.sample(['nbsp', 'copy', 'a', 'Amp', 'x1'], rng.randrange(0, 3))
     return RuleSet(m, rng.randrange(2), rng.randrange(2), rng.choice(ENCODINGS), ents, FUNS, tags)
 
@@ -351,7 +567,9 @@ VALUES = [b'http://host/p?q=1&amp;r=2#f', b'https://h', b'ftp://u@h:21/x', b'jav
           b'1.5', b'&amp;', b'&lt;b&gt;', b'&quot;', b'&apos;', b'&#39;', b'&#x27;', b'&#X27;', b'&#34;', b'&nbsp;', b'&', b'a&b', b'<', b'>',
           b'a>b', b'it\'s', b'say "x"', b'disabled', b'checked', b'http://h/\xc3\xa9', b'http://h/\xff', b' http://h', b'ht\ttp://h',
           b'http://1.2.3.4/', b'http://h/%41%zz', b'a:b', b'1:2', b'HTTP://H', b'news:x', b'nntp://h/g',
-          b'http/evil', b'https', b'http#f', b'http?x', b'ftp/x', b'httpx/y', b'http:', b'http:x', b'//h', b'u:p@h', b'2.2.2.2', b'1.2.3.4', b'http://u:p@h:8/p;a=1?q#f']
+          b'http/evil', b'https', b'http#f', b'http?x', b'ftp/x', b'httpx/y', b'http:', b'http:x', b'//h', b'u:p@h', b'2.2.2.2', b'1.2.3.4', b'http://u:p@h:8/p;a=1?q#f',
+          b'javascript&#58;x', b'javascript&colon;x', b'java&apos;script:x', b'http&amp;:x', b'http&apos;://h', b'&apos;http://h', b'http:&apos;', b'h&#x27;:x',
+          b'http://h/?a&amp;b', b'http:/&amp;', b'x&amp;y', b'http&#x3a;//h']
 
 
 URI_GOOD = {
@@ -363,12 +581,15 @@ URI_GOOD = {
     'frag': [b'', b'', b'#', b'#f', b'#f/?', b'#%41', b'#&apos;'],
 }
 URI_BAD = {
-    'scheme': [b'1a', b'', b'http ', b'ht tp', b'-x', b'x&amp;y', b'%68ttp', b'ja\tva'],
+    'scheme': [b'1a', b'', b'http ', b'ht tp', b'-x', b'x&amp;y', b'%68ttp', b'ja\tva', b'http&apos;', b'http&#x27;', b'&amp;http', b'http&amp;', b'a_b', b'h~', b'http_'],
     'auth': [b'h:8a', b'[::1]', b'u@@h', b'%4', b'a&b', b':', b'@', b'h h'],
-    'path': [b'/a b', b'/a%zz', b'/a&quot;b', b'/a<b', b'/a\\b', b'/a\x00b', b'/\xc3\xa9', b'/a[b]', b'/a|b', b'/a^b', b'/a`b', b'/a{b}'],
+    'path': [b'/a b', b'/a%zz', b'/a%4z', b'/a%z4', b'/%4', b'/%', b'/a&lt;b', b'/a&#39;b', b'/a&quot;b', b'/a<b', b'/a\\b', b'/a\x00b', b'/\xc3\xa9', b'/a[b]', b'/a|b', b'/a^b', b'/a`b', b'/a{b}'],
     'query': [b'?q=1&r=2', b'?a b', b'?#', b'?q[]=1'],
     'frag': [b'#a#b', b'#a b'],
 }
+
+
+URI_ALPHA = [b'h', b'1', b':', b'/', b'?', b'#', b'@', b'%41', b'.', b'&amp;', b' ', b'_', b'%4']
 
 
 def gen_uri_value(rng):
@@ -703,11 +924,11 @@ def gen_cases(ctx):
         for d in near_valid(rng, rs):
             cases.append(rs.case(d, rng.choice([0, 0, 63])))
     # longer random piece sequences
-    for _ in range(ctx.scale(4000, 150000)):
+    for _ in range(ctx.scale(4000, 100000)):
         s = b''.join(rng.choice(PIECES) for _ in range(rng.randrange(4, 14)))
         cases.append(rng.choice(fixed[:2] + fixed[6:]).case(s))
     # 3. grammar-guided documents and their mutations
-    for _ in range(ctx.scale(9000, 300000)):
+    for _ in range(ctx.scale(9000, 200000)):
         rs = rng.choice(fixed + rand)
         s = gen_html(rng, rs)
         repl = rng.choice([0, 0, 0, 63, 32, 88, 60, 38])
@@ -732,9 +953,33 @@ def gen_cases(ctx):
                  (fixed[1], b'<img SRC="', b'">'), (fixed[1], b'<A Href="', b'">x</a>'), (fixed[2], b'<a href="', b'"/>'),
                  (fixed[8], b'<a href="', b'">x</a>'), (fixed[8], b'<img src="', b'"/>'), (fixed[8], b'<a rel="', b'">x</a>'),
                  (fixed[9], b'<img SRC="', b'">'), (fixed[9], b'<A Href="', b'">x</a>')]
-    for _ in range(ctx.scale(5000, 200000)):
+    for _ in range(ctx.scale(5000, 150000)):
         rs, pre, post = rng.choice(uri_slots)
         cases.append(rs.case(pre + gen_uri_value(rng) + post))
+    # 9. exhaustive URI values: all sequences of <= 3 (thorough 4) of 13 symbols around the case splits of uri_parser
+    #    (scheme / colon / slashes / authority / query / fragment / percent / entity / blank) under the three validator kinds
+    urs = RuleSet('x', 0, 0, '-', [], ['abs:(h|h1)', 'uris:(h|h1)', 'rel'], [('a', 3, [('x', 'f0'), ('y', 'f1'), ('z', 'f2')])])
+    for ln in range(0, ctx.scale(3, 4) + 1):
+        for t in itertools.product(URI_ALPHA, repeat=ln):
+            v = b''.join(t)
+            for an in (b'x', b'y', b'z'):
+                cases.append(urs.case(b'<a ' + an + b'="' + v + b'"/>'))
+    # 10. rule sets with repeated registrations: piece sequences, documents, damages
+    DUP_PIECES = [b'<a href="http://h">', b'<a href="/rel">', b"<a HREF='x.html' title='t'>", b'<a id="abc">', b'<a id="12">', b'</a>', b'<a/>',
+                  b'<a href="/r"/>', b'<b x="x"/>', b'<b x="12"/>', b'<b x >', b'<B X>', b'<b y="3"/>', b'<b>', b'</b>', b'<i/>', b'<i>', b'</i>',
+                  b'<i class="k"/>', b'<I CLASS="k">', b'<p a="a">', b'<p a="12">', b'<p a >', b'</p>', b'<q y="1">', b't']
+    for ln in (1, 2):
+        for t in itertools.product(DUP_PIECES, repeat=ln):
+            s = b''.join(t)
+            cases.append(fixed[10].case(s))
+            cases.append(fixed[11].case(s))
+    for _ in range(ctx.scale(600, 20000)):
+        rs = rng.choice(fixed[10:12])
+        if rng.random() < 0.5:
+            for d in near_valid(rng, rs):
+                cases.append(rs.case(d))
+        else:
+            cases.append(rs.case(gen_html(rng, rs)))
     # 7. encodings that are converted to UTF-8 and back: documents, damages, stray bytes, truncation
     wide = ['text', 'a\u3042', '\u30bd', '\u00e9', '\U0001F600', '\ufeff']
     for _ in range(ctx.scale(1200, 30000)):
@@ -853,6 +1098,10 @@ def check_value(R, vk, raw):
             # RFC 3986 characters only (as the value stands in the text: & only from the permitted entities)
             if re.search(rb'[^A-Za-z0-9\-._~%!$()*+,;=\':@/?#&]', raw):
                 return 'uri-attribute-with-illegal-character'
+            # ... and % only as the start of a percent-encoded byte, & only as the start of &amp; / &apos; (the two references that
+            # uri_parser::sub_delims knows); theorem uri_value_is_token_sequence
+            if not re.fullmatch(rb"(?:[A-Za-z0-9\-._~!$()*+,;=':@/?#]|%[0-9A-Fa-f]{2}|&amp;|&apos;)*", raw):
+                return 'uri-attribute-with-malformed-escape'
             # browser-lenient scheme extraction: control characters and blanks are ignored by browsers
             v = bytes(c for c in dec if c > 0x20)
             m = re.match(rb'([A-Za-z][A-Za-z0-9+.\-]*):', v)
@@ -1090,7 +1339,7 @@ def classify(case, out):
 # ------------------------------------------------------------------------------------------------
 # two-phase differential: the harness answer carries the oracle table that the model needs
 # ------------------------------------------------------------------------------------------------
-def differential2(ctx, cases, exe, mexe, pf=0):
+def differential2(ctx, cases, exe, mexe):
     t0 = time.time()
     rc_i, out_i, err_i = vlib.run_lines_parallel(exe, cases)
     t1 = time.time()
@@ -1110,7 +1359,7 @@ def differential2(ctx, cases, exe, mexe, pf=0):
         mlines = []
         for c, o in zip(cases, out_i):
             tail = o.split(' | ', 1)
-            mlines.append(c + ' pf=%d ' % pf + (tail[1] if len(tail) == 2 else 'F=- E=- A=1 U=- V=- S=-'))
+            mlines.append(c + ' ' + (tail[1] if len(tail) == 2 else 'F=- E=- A=1 U=- V=- S=-'))
         rc_m, out_m, err_m = vlib.run_lines_parallel(mexe, mlines)
         if len(out_m) != len(cases):
             ctx.broke('model driver produced %d lines for %d cases' % (len(out_m), len(cases)), err_m[-2000:])
@@ -1160,7 +1409,7 @@ def run(ctx):
         'extraction: ExtrOcamlBasic only, OCaml 4.13.1',
         'harness/C04_xss.cpp, ocaml/C04_driver.ml, checks/C04.py (generators, oracle table plumbing, independent python tokenizer)',
         'hand model of the loops of src/xss.cpp (coq/C04/Defs.v), tied by correspondence only',
-        'regex engine (PCRE via booster::regex): abstract, answered by the real code during correspondence (regex validators and the scheme expression of URI validators); class uri_parser is modelled (coq/C04/DefsU.v)',
+        'regex engine (PCRE via booster::regex): abstract, answered by the real code during correspondence (regex validators and the scheme expression of URI validators); class uri_parser is modelled (coq/C04/DefsU.v), its one-byte matchers, alternatives and entry points are tied by Link.v',
         'cppcms::encoding::valid / validate_or_filter: abstract, answered by the real code during correspondence (property C14)',
         'booster::locale::conv::to_utf / from_utf (iconv) for the encodings that are not ASCII compatible: abstract, answered by the real code']
     ctx.assumptions = [
@@ -1168,7 +1417,6 @@ def run(ctx):
         'encoding::valid and encoding::validate_or_filter agree on validity and the filtered text is valid (premises enc_agree, enc_vof_valid of the theorems that mention the encoding; property C14)',
         'stability with an encoding: premise enc_ascii_compatible (the bytes & ; < > dquote are complete characters at every position, validity closed under concatenation) - true of UTF-8 and single byte code pages; for converted encodings premise conv_roundtrip (to_utf (from_utf u) = u)',
         'stability: premise kind_compat / esc_entities_ok on the rule set, proved for every rule set the public API can build',
-        'rule sets in which the same tag/attribute is not registered twice under names that compare equal (std::map semantics are not modelled)',
         'char is signed 8-bit on this target (x86-64), as clang reports']
     exe, err = vlib.build_harness('C04_xss', ['C04_xss.cpp'])
     if not exe:
@@ -1186,18 +1434,24 @@ def run(ctx):
         '< > & ; / ! - " \' a = space under 5 rule sets; all sequences of <=3 (thorough: <=4) of 24 markup pieces under an xhtml and an html '
         'rule set. Random (seeded): piece sequences, grammar-guided documents (nested/unterminated/mismatched tags, attributes of every '
         'validator kind with good and bad values, mixed quotes, entities incl. numeric boundaries, comments incl. -- inside, invalid UTF-8, '
-        'NUL) and single-byte mutations of them under 8 fixed + random rule sets (xhtml/html, tag kinds, boolean/integer/regex/uri/absolute/'
+        'NUL) and single-byte mutations of them under 12 fixed + random rule sets (xhtml/html, tag kinds, repeated registrations of a tag / attribute, boolean/integer/regex/uri/absolute/'
         'relative attributes, comments and numeric entities on/off, encodings none/UTF-8/ISO-8859-x/windows-125x/koi8/ascii), replacement '
         'characters 0 ? space X < & > " ;; documents that validate and single structural damages of them; converted encodings UTF-16LE/BE, UTF-32LE, '
-        'Shift_JIS, EUC-JP, GBK with wide characters, stray bytes and truncation. A case is non-trivial when the input contains at least one of < > &; distinct = distinct case lines.')
+        'Shift_JIS, EUC-JP, GBK with wide characters, stray bytes and truncation; URI attribute values: grammar-guided (scheme/authority/path/query/fragment parts, good and bad) and exhaustive short sequences of 13 URI symbols under the three URI validator kinds. A case is non-trivial when the input contains at least one of < > &; distinct = distinct case lines.')
     ctx.coverage['exhaustive'] = False
     ctx.coverage['exhaustive_parts'] = ['strings of length<=%d over 12 symbols' % ctx.scale(3, 5),
-                                        'piece sequences of length<=%d (quick: half of the longest)' % ctx.scale(3, 4)]
+                                        'piece sequences of length<=%d (quick: half of the longest)' % ctx.scale(3, 4),
+                                        'URI attribute values: sequences of <=%d of 13 symbols (h 1 : / ? # @ %%41 . &amp; blank _ %%4) under the absolute-only, both and relative validators' % ctx.scale(3, 4)]
     pf = probe_parse_full()
-    if pf is None:
-        ctx.broke('uri_parser::parse_full() is neither of the two shapes the model knows (tie to source broken)')
-        pf = 0
-    ctx.coverage['parse_full_variant'] = 'uri() (repaired)' if pf else 'uri_reference() (accepts relative references: finding absolute-uri-attribute-without-scheme)'
-    differential2(ctx, cases, exe, mexe, pf)
+    if pf == 'uri_reference':
+        ctx.broke('uri_parser::parse_full() is uri_reference() && begin_ == end_ again: regression of /repo 92a72e6, the absolute-only URI '
+                  'validator accepts relative references that start with a scheme word (e.g. <img src="http/evil"/> under '
+                  'uri_validator("(http|https)", true)); the model (coq/C04/DefsU.v: parse_full) and theorem absolute_uri_requires_scheme '
+                  'describe uri() && begin_ == end_')
+    elif pf is None:
+        ctx.broke('uri_parser::parse_full() no longer has the shape the model describes (uri() && begin_ == end_): tie to source broken')
+    ctx.coverage['parse_full_shape'] = {'uri': 'uri() && begin_ == end_ (as modelled)', 'uri_reference': 'uri_reference() && begin_ == end_ (REGRESSION)',
+                                        None: 'unknown'}[pf]
+    differential2(ctx, cases, exe, mexe)
     if OBSERVED:
         ctx.notes.append('observations (not failures): %s' % ', '.join('%s x%d' % kv for kv in sorted(OBSERVED.items())))
